@@ -182,6 +182,12 @@ func AppendSENString(buf []byte, s string, htmlSafe bool) []byte {
 				buf = append(buf, `\ufffd`...)
 				start = i + cnt
 				skip = start
+			case '\ufeff':
+				// Bare, a leading byte order mark would be skipped by the parser.
+				if i == 0 {
+					quote = true
+				}
+				skip = i + cnt
 			default:
 				skip = i + cnt
 			}
